@@ -254,6 +254,23 @@ def config_facets(run):
                 bad.append((f"no [output] table, parameters {list(pkeys)}, after parses of other configurations", m[:2]))
         run.exact(f"parse_config: every subset of the optional keys parses with the documented defaults [{n} configurations, exhaustive]", fn, not bad, f"{len(bad)} failing, e.g. {bad[:2]}" if bad else "defaults = DefaultParams values; raw_output/diagnostics default to all simulated phases",
                   info=None if not bad else dict(checker="contracts.C19:nat_config", inputs=dict(pkeys=list(bad[0][0]) if isinstance(bad[0][0], tuple) else [], okeys=list(bad[0][1]) if isinstance(bad[0][1], tuple) else [], with_output=isinstance(bad[0][0], tuple))))
+        # phase lists and fractions: every valid combination keeps equal-length lists, fractions summing to one, typed phases
+        # (single phase, both orders, equal fractions, a phase with fraction exactly 0 or exactly 1)
+        badp = []
+        for phases, fracs in ((["olivine"], [1.0]), (["enstatite"], [1.0]), (["olivine", "enstatite"], [0.7, 0.3]), (["enstatite", "olivine"], [0.25, 0.75]), (["olivine", "enstatite"], [0.5, 0.5]),
+                              (["olivine", "enstatite"], [1.0, 0.0]), (["olivine", "enstatite"], [0.0, 1.0]), (["olivine", "olivine"], [0.5, 0.5])):
+            try:
+                cfg = IO.parse_config(_write(tmp, "[input]\n" + BASE_INPUT + f"[parameters]\nphase_assemblage = {_toml_val(phases)}\nphase_fractions = {_toml_val(fracs)}\n"))
+                P_ = cfg["parameters"]
+                okp = (len(P_["phase_assemblage"]) == len(P_["phase_fractions"]) == len(phases) and abs(sum(P_["phase_fractions"]) - 1) <= 1e-16 and list(P_["phase_fractions"]) == fracs
+                       and [p_.name for p_ in P_["phase_assemblage"]] == phases and all(isinstance(p_, core.MineralPhase) for p_ in P_["phase_assemblage"])
+                       and cfg["output"]["raw_output"] == list(P_["phase_assemblage"]) and cfg["output"]["diagnostics"] == list(P_["phase_assemblage"]))
+                if not okp:
+                    badp.append(f"{phases} {fracs}: parsed to {P_['phase_assemblage']} / {P_['phase_fractions']}")
+            except Exception as e:
+                badp.append(f"{phases} {fracs}: {type(e).__name__}: {str(e)[:60]}")
+        run.exact("parse_config: valid phase lists / fractions (single phase, both orders, a fraction of exactly 0 or 1, a repeated phase) parse to equal-length lists of the given phases and fractions [8 cases]", fn, not badp, "; ".join(badp[:3]),
+                  info=None if not badp else dict(checker="contracts.C19:nat_config_phases", inputs=dict(rounds=1)))
         # fabric letters
         okf = True
         for letter, fab in zip("ABCDE", (core.MineralFabric.olivine_A, core.MineralFabric.olivine_B, core.MineralFabric.olivine_C, core.MineralFabric.olivine_D, core.MineralFabric.olivine_E)):
@@ -317,6 +334,29 @@ def nat_config(pkeys=(), okeys=(), with_output=True):
     finally:
         os.chdir(cwd)
     return dict(ok=not m, messages=m)
+
+
+def nat_config_phases(rounds=1):
+    import logging
+
+    logging.disable(logging.CRITICAL)
+    import pydrex.io as IO
+
+    tmp = tempfile.mkdtemp(prefix="pvcfg", dir=os.environ.get("VERIF_SCRATCH"))
+    cwd = os.getcwd()
+    os.chdir(tmp)
+    msgs = []
+    try:
+        for phases, fracs in ((["olivine", "enstatite"], [1.0, 0.0]), (["olivine", "enstatite"], [0.0, 1.0]), (["enstatite", "olivine"], [0.25, 0.75])):
+            try:
+                P_ = IO.parse_config(_write(tmp, "[input]\n" + BASE_INPUT + f"[parameters]\nphase_assemblage = {_toml_val(phases)}\nphase_fractions = {_toml_val(fracs)}\n"))["parameters"]
+                if len(P_["phase_assemblage"]) != len(P_["phase_fractions"]) or [p_.name for p_ in P_["phase_assemblage"]] != phases:
+                    msgs.append(f"{phases} {fracs} parsed to {[p_.name for p_ in P_['phase_assemblage']]} / {list(P_['phase_fractions'])}")
+            except Exception as e:
+                msgs.append(f"{phases} {fracs}: {type(e).__name__}")
+    finally:
+        os.chdir(cwd)
+    return dict(ok=not msgs, messages=msgs)
 
 
 def nat_config_history(rounds=2):
